@@ -1,5 +1,5 @@
-(* History independence for model/CacheRbasex.v with the recorded defective
-   paths excluded (hazard): invariant, step lemma, theorem. *)
+(* History independence and fault safety for model/CacheRbasex.v (fixed code):
+   invariant, step lemma, theorems. *)
 From Coq Require Import List Arith Bool Lia.
 From PA Require Import base.Npy model.CacheCommon model.CacheRbasex.
 Import ListNotations.
@@ -47,33 +47,37 @@ Definition honest (d : disk fkey fcont) : Prop :=
   forall di k c, In (di, k, c) d ->
     match c with
     | FGood f => f_c f = ideal (fk_rmax k) (fk_order k) (fk_odd k) /\ f_inv f = fk_inv k
-    | FBad _ => False          (* damaged files are property C08's subject *)
-    | FShape => False
+    | FBad _ => True
+    | FShape => True
     end.
+
+(* no damaged file on disk (the setting of C07) *)
+Definition clean (s : st) : Prop := forall di k c, In (di, k, c) (dk s) -> forall pe, c <> FBad pe.
 
 (* the part about _profiles' globals *)
 Definition InvD (s : st) : Prop :=
   match dst s with
   | DNone => prm s = None
   | DHalf => False
-  | DOk p w _ _ _ => prm s = Some p /\ wobj s = w
+  | DOk p _ v _ _ => prm s = Some p /\ wobj s = v
   end.
 
-(* the part about get_bs_cached's globals, relative to the valid-mask number
-   of the cached Distributions object *)
-Definition InvB (ov : option nat) (bp : option (nat * nat * bool)) (b t : option rcont)
+(* the part about get_bs_cached's globals: the cached matrices belong to the
+   cached basis, are masked for _mask_key, and a recorded reg never raises *)
+Definition InvB (mk : nat) (bp : option (nat * nat * bool)) (b t : option rcont)
            (f : option acont) (tp : option nat) (ti : option acont) (d : disk fkey fcont) : Prop :=
   match b with
   | Some x => bp = Some (r_rmax x, r_order x, r_odd x) /\ r_junk x = false
   | None => t = None /\ f = None /\ tp = None
   end /\
   (forall y, t = Some y -> b = Some y) /\
-  (forall a, f = Some a -> exists x v, b = Some x /\ a = AFwd x (norm_vid v) /\ ov = Some v) /\
-  (forall reg, tp = Some reg -> exists x v, b = Some x /\ ti = Some (AInv reg x (norm_vid v)) /\ ov = Some v) /\
+  (forall a, f = Some a -> exists x, b = Some x /\ a = AFwd x mk) /\
+  (forall reg, tp = Some reg -> exists x, b = Some x /\ ti = Some (AInv reg x mk) /\
+                                         reg_raises reg (r_order x) (r_odd x) = false) /\
   honest d.
 
 Definition Inv (s : st) : Prop :=
-  InvD s /\ InvB (dst_vid (dst s)) (bs_prm s) (bs s) (tri_full s) (trf s) (tri_prm s) (tri s) (dk s).
+  InvD s /\ InvB (mkey s) (bs_prm s) (bs s) (tri_full s) (trf s) (tri_prm s) (tri s) (dk s).
 
 Lemma Inv_init : Inv init.
 Proof.
@@ -82,7 +86,7 @@ Proof.
 Qed.
 
 Lemma Inv_upd : forall s bp b t f tp ti g d,
-  InvD s -> InvB (dst_vid (dst s)) bp b t f tp ti d -> Inv (upd s bp b t f tp ti g d).
+  InvD s -> InvB (mkey s) bp b t f tp ti d -> Inv (upd s bp b t f tp ti g d).
 Proof. intros. split; assumption. Qed.
 
 Lemma honest_filter : forall d f, honest d -> honest (filter f d).
@@ -91,7 +95,7 @@ Proof. unfold honest. intros d f H di k c Hin. apply filter_In in Hin. destruct 
 Lemma honest_put : forall d di k c, honest d ->
   match c with
   | FGood f => f_c f = ideal (fk_rmax k) (fk_order k) (fk_odd k) /\ f_inv f = fk_inv k
-  | FBad _ => False | FShape => False end ->
+  | FBad _ => True | FShape => True end ->
   honest (put_file fkey_eqb di k c d).
 Proof.
   unfold honest, put_file, remove_file. intros d di k c H Hc di' k' c' [Hin|Hin].
@@ -101,66 +105,61 @@ Qed.
 
 (* ---- _profiles -------------------------------------------------------------------- *)
 Lemma hazard_parts : forall s c, hazard s (Call c) = false ->
-  c_fail c = 0 /\ reg_raises (c_reg c) (c_order c) (c_odd c) = false /\ uses_bad_dir s (c_bd c) = false /\
+  uses_bad_dir s (c_bd c) = false /\
   (reuses_dst s c = true ->
      match dst s with
-     | DOk _ _ v r vid => v = c_wver c /\ r = c_rmax c /\ vid = c_vid c
+     | DOk _ _ _ r vid => r = c_rmax c /\ vid = c_vid c /\ c_fail c = 0
      | _ => False
      end).
 Proof.
   intros s c H. cbn [hazard] in H.
-  apply orb_false_iff in H. destruct H as [H H4].
-  apply orb_false_iff in H. destruct H as [H H3].
-  apply orb_false_iff in H. destruct H as [H1 H2].
-  apply negb_false_iff in H1. apply Nat.eqb_eq in H1.
-  repeat split; auto.
-  - intros Hr. rewrite Hr in H4. cbn [andb] in H4. apply negb_false_iff in H4.
-    destruct (dst s); try discriminate.
-    apply andb_true_iff in H4. destruct H4 as [H4 H6]. apply andb_true_iff in H4. destruct H4 as [H4 H7].
-    apply Nat.eqb_eq in H4. apply Nat.eqb_eq in H6. apply Nat.eqb_eq in H7. auto.
+  apply orb_false_iff in H. destruct H as [H1 H2]. split; auto.
+  intros Hr. rewrite Hr in H2. cbn [andb] in H2. apply negb_false_iff in H2.
+  destruct (dst s); try discriminate.
+  apply andb_true_iff in H2. destruct H2 as [H2 H4]. apply andb_true_iff in H2. destruct H2 as [H2 H3].
+  apply Nat.eqb_eq in H2. apply Nat.eqb_eq in H3. apply Nat.eqb_eq in H4. auto.
 Qed.
 
+(* either the Distributions object is (re)built / reused and describes the
+   call, or — invalid parameters — the call raises ValueError and nothing changes *)
 Lemma profiles_good : forall s c s1 r,
   Inv s -> hazard s (Call c) = false -> profiles s c = (s1, r) ->
-  r = Ret (c_pid c, c_wver c, c_rmax c, c_vid c) /\ Inv s1 /\
-  dst_vid (dst s1) = Some (c_vid c) /\ gdir s1 = gdir s /\ dk s1 = dk s.
+  (r = Ret (c_pid c, c_wver c, c_rmax c, c_vid c) /\ Inv s1 /\ gdir s1 = gdir s /\ dk s1 = dk s /\
+   c_fail c = 0) \/
+  (r = Raise EValue /\ s1 = s /\ c_fail c <> 0).
 Proof.
   intros s c s1 r [HD HB] Hz Hp.
-  destruct (hazard_parts _ _ Hz) as (Hf & _ & _ & Hre).
+  destruct (hazard_parts _ _ Hz) as (_ & Hre).
   unfold profiles in Hp. unfold reuses_dst in *.
-  destruct (dst s) as [| |p w v rm vid] eqn:Ed.
-  - (* no object yet *)
-    unfold InvD in HD. rewrite Ed in HD. rewrite HD in Hp. cbn [opt_eqb andb] in Hp.
-    rewrite Hf in Hp. inversion Hp; subst. split; auto.
-    split; [|repeat split; auto].
-    split.
-    + unfold InvD, set_profiles. cbn. auto.
-    + unfold set_profiles. cbn [dst dst_vid bs_prm bs tri_full trf tri_prm tri dk]. cbn [dst_vid opt_eqb negb].
+  assert (Hnew : forall ov, dst_vid (dst s) = ov ->
+            Inv (set_profiles s (Some (c_pid c)) (c_wver c)
+                   (DOk (c_pid c) (c_wid c) (c_wver c) (c_rmax c) (c_vid c)) None
+                   (negb (opt_eqb (Some (c_vid c)) ov)))).
+  { intros ov _. split.
+    - unfold InvD, set_profiles. cbn. auto.
+    - unfold set_profiles. cbn [mkey bs_prm bs tri_full trf tri_prm tri dk].
       destruct HB as (B1 & B2 & B3 & B4 & B5).
-      cbn [dst_vid] in B3, B4.
-      repeat split; auto.
-      * destruct (bs s); auto. destruct B1 as (A & B & C). auto.
-      * discriminate.
-      * discriminate.
+      destruct (negb (opt_eqb (Some (c_vid c)) ov)).
+      + repeat split; auto; try discriminate.
+        destruct (bs s); auto. destruct B1 as (A & B & C). auto.
+      + repeat split; auto. }
+  destruct (dst s) as [| |p w v rm vid] eqn:Ed.
+  - unfold InvD in HD. rewrite Ed in HD. rewrite HD in Hp. cbn [opt_eqb andb] in Hp.
+    destruct (c_fail c) eqn:Ef.
+    + inversion Hp; subst. left. split; auto. split; [apply (Hnew None); reflexivity|]. auto.
+    + inversion Hp; subst. right. repeat split; auto.
   - unfold InvD in HD. rewrite Ed in HD. contradiction.
   - unfold InvD in HD. rewrite Ed in HD. destruct HD as [HP HW].
-    destruct (opt_eqb (prm s) (Some (c_pid c)) && (wobj s =? c_wid c)) eqn:Esame.
-    + (* reuse *)
-      specialize (Hre eq_refl). destruct Hre as (E1 & E2 & E3). subst v rm vid.
-      apply andb_true_iff in Esame. destruct Esame as [Ep _]. apply opt_eqb_eq in Ep.
-      rewrite HP in Ep. inversion Ep; subst p.
-      inversion Hp; subst. split; auto. split; [split; auto; unfold InvD; rewrite Ed; auto|].
-      rewrite ?Ed. cbn [dst_vid]. repeat split; auto.
-    + rewrite Hf in Hp. inversion Hp; subst. split; auto.
-      split; [|repeat split; auto].
-      split.
-      * unfold InvD, set_profiles. cbn. auto.
-      * unfold set_profiles. cbn [dst dst_vid bs_prm bs tri_full trf tri_prm tri dk].
-        destruct HB as (B1 & B2 & B3 & B4 & B5). cbn [dst_vid] in B3, B4.
-        cbn [dst_vid opt_eqb]. destruct (c_vid c =? vid) eqn:Ev; cbn [negb].
-        -- apply Nat.eqb_eq in Ev. subst vid. repeat split; auto.
-        -- repeat split; auto; try discriminate.
-           destruct (bs s); auto. destruct B1 as (A & B & C). auto.
+    destruct (opt_eqb (prm s) (Some (c_pid c)) && (wobj s =? c_wver c)) eqn:Esame.
+    + specialize (Hre eq_refl). destruct Hre as (E2 & E3 & E4). subst rm vid.
+      apply andb_true_iff in Esame. destruct Esame as [Ep Ew]. apply opt_eqb_eq in Ep.
+      apply Nat.eqb_eq in Ew. rewrite HP in Ep. inversion Ep; subst p.
+      assert (Ev : v = c_wver c) by congruence.
+      inversion Hp; subst s1 r. rewrite Ev. left. split; auto. split; [|auto].
+      split; auto. unfold InvD. rewrite Ed. auto.
+    + destruct (c_fail c) eqn:Ef.
+      * inversion Hp; subst. left. split; auto. split; [apply (Hnew (Some vid)); reflexivity|]. auto.
+      * inversion Hp; subst. right. repeat split; auto.
 Qed.
 
 (* ---- get_bs_cached ------------------------------------------------------------------- *)
@@ -181,12 +180,14 @@ Proof.
   rewrite Hc. reflexivity.
 Qed.
 
+Definition damaged (d : disk fkey fcont) : Prop := exists di k pe, In (di, k, FBad pe) d.
+
 Lemma load_good : forall dir rmax order odd inv listing d,
   honest d -> match dir with Some di => dir_writable di = true | None => True end ->
   match load_bs dir rmax order odd inv listing d with
   | LNone => True
   | LSome b t => b = ideal rmax order odd /\ (t = None \/ t = Some b)
-  | LRaise _ => False
+  | LRaise _ => damaged d
   end.
 Proof.
   intros dir rmax order odd inv listing d Hh Hw. unfold load_bs.
@@ -199,36 +200,46 @@ Proof.
   destruct (find_file fkey_eqb di k d) as [[f|pe|]|] eqn:Ef; try exact I.
   - rewrite (honest_load _ _ _ _ rmax order odd Hh Ef). split; auto.
     destruct (f_inv f && inv); auto.
-  - apply find_file_In in Ef. destruct (Hh _ _ _ Ef).
-  - apply find_file_In in Ef. destruct (Hh _ _ _ Ef).
+  - destruct pe; try exact I; apply find_file_In in Ef; do 3 eexists; exact Ef.
 Qed.
 
 Lemma stage1_good : forall s rmax order odd fwd reg listing g dir s1 nb oe,
   Inv s -> match dir with Some di => dir_writable di = true | None => True end ->
   stage1 s rmax order odd fwd reg listing g dir = (s1, nb, oe) ->
-  oe = None /\
-  (Inv s1 /\ dst s1 = dst s /\ prm s1 = prm s /\ wobj s1 = wobj s /\ ibs s1 = ibs s /\ dk s1 = dk s /\
-     bs s1 = Some (ideal rmax order odd) /\
-     (nb = true -> tri_full s1 = None)).
+  Inv s1 /\ dst s1 = dst s /\ prm s1 = prm s /\ wobj s1 = wobj s /\ ibs s1 = ibs s /\ dk s1 = dk s /\
+  mkey s1 = mkey s /\
+  (forall e, oe = Some e -> damaged (dk s)) /\
+  (oe = None -> bs s1 = Some (ideal rmax order odd) /\ (nb = true -> tri_full s1 = None)).
 Proof.
   intros s rmax order odd fwd reg listing g dir s1 nb oe [HD HB] Hw H1. unfold stage1 in H1.
   pose proof HB as (B1 & B2 & B3 & B4 & B5).
   destruct (match bs s with None => true | Some _ => negb (prm_eqb (bs_prm s) rmax order odd) end) eqn:En.
   - pose proof (load_good dir rmax order odd (negb fwd && (reg =? 0)) listing (dk s) B5 Hw) as Hl.
     destruct (load_bs dir rmax order odd (negb fwd && (reg =? 0)) listing (dk s)) as [|b t|e].
-    + inversion H1; subst. split; [reflexivity|].
-      split; [|repeat split; auto].
+    + inversion H1; subst. split; [|repeat split; auto; discriminate].
       apply Inv_upd; auto. unfold InvB. repeat split; auto; try discriminate.
-    + destruct Hl as [Hb Ht]. inversion H1; subst. split; [reflexivity|].
-      split; [|repeat split; auto; discriminate].
+    + destruct Hl as [Hb Ht]. inversion H1; subst. split; [|repeat split; auto; discriminate].
       apply Inv_upd; auto. unfold InvB. repeat split; auto; try discriminate.
       intros y Hy. destruct Ht as [Ht|Ht]; rewrite Ht in Hy; [discriminate|inversion Hy; reflexivity].
-    + contradiction.
-  - inversion H1; subst. split; [reflexivity|].
+    + inversion H1; subst. split; [apply Inv_upd; auto|]. repeat split; auto; try discriminate.
+  - inversion H1; subst.
     destruct (bs s) as [x|] eqn:Ex; [|discriminate]. apply negb_false_iff in En.
     destruct B1 as [Hp Hj]. pose proof (prm_ideal _ _ _ _ _ Hp Hj En) as Hx. subst x.
-    split; [|repeat split; auto; discriminate].
-    apply Inv_upd; auto.
+    split; [apply Inv_upd; auto|]. repeat split; auto; discriminate.
+Qed.
+
+Lemma set_mask_good : forall s m, Inv s ->
+  Inv (set_mask s m) /\ mkey (set_mask s m) = m /\ dst (set_mask s m) = dst s /\
+  prm (set_mask s m) = prm s /\ wobj (set_mask s m) = wobj s /\ ibs (set_mask s m) = ibs s /\
+  dk (set_mask s m) = dk s /\ bs (set_mask s m) = bs s /\ tri_full (set_mask s m) = tri_full s /\
+  gdir (set_mask s m) = gdir s.
+Proof.
+  intros s m HI. pose proof HI as [HD HB]. unfold set_mask. destruct (mkey s =? m) eqn:E.
+  - apply Nat.eqb_eq in E. split; [exact HI|]. repeat split; auto.
+  - destruct HB as (B1 & B2 & B3 & B4 & B5). split; [|cbn; repeat split; auto].
+    split; [exact HD|]. cbn [mkey bs_prm bs tri_full trf tri_prm tri dk].
+    repeat split; auto; try discriminate.
+    destruct (bs s); auto. destruct B1 as (A & B & C). auto.
 Qed.
 
 Lemma save_good : forall dir rmax order odd b t d d',
@@ -248,41 +259,47 @@ Proof.
   intros dir rmax order odd b t d Hw. unfold save_bs. destruct dir as [di|]; [rewrite Hw|]; eauto.
 Qed.
 
-Lemma InvB_dk : forall ov bp b t f tp ti d d',
-  InvB ov bp b t f tp ti d -> honest d' -> InvB ov bp b t f tp ti d'.
-Proof. intros ov bp b t f tp ti d d' (B1 & B2 & B3 & B4 & _) H. repeat split; auto. Qed.
+Lemma InvB_dk : forall mk bp b t f tp ti d d',
+  InvB mk bp b t f tp ti d -> honest d' -> InvB mk bp b t f tp ti d'.
+Proof. intros mk bp b t f tp ti d d' (B1 & B2 & B3 & B4 & _) H. repeat split; auto. Qed.
 
-Lemma finish_good : forall s1 nb b rmax order odd fwd reg vid g dir s2 r ov,
+(* the matrices handed back (or the ValueError for an invalid reg) *)
+Definition expected_a (rmax order : nat) (odd fwd : bool) (reg vid : nat) : res acont :=
+  if fwd then Ret (AFwd (ideal rmax order odd) vid)
+  else if reg_raises reg order odd then Raise EValue
+  else Ret (AInv reg (ideal rmax order odd) vid).
+
+Lemma finish_good : forall s1 nb b rmax order odd fwd reg vid g dir s2 r,
   Inv s1 -> bs s1 = Some b -> b = ideal rmax order odd -> (nb = true -> tri_full s1 = None) ->
-  dst_vid (dst s1) = Some ov -> norm_vid ov = vid ->
-  reg_raises reg order odd = false ->
+  mkey s1 = vid ->
   match dir with Some di => dir_writable di = true | None => True end ->
   finish_bs s1 nb b rmax order odd fwd reg vid g dir = (s2, r) ->
   Inv s2 /\ dst s2 = dst s1 /\ prm s2 = prm s1 /\ wobj s2 = wobj s1 /\ ibs s2 = ibs s1 /\
-  r = Ret (if fwd then AFwd b vid else AInv reg b vid).
+  r = expected_a rmax order odd fwd reg vid.
 Proof.
-  intros s1 nb b rmax order odd fwd reg vid g dir s2 r ov HI Hbs Hb Hnb Hov Hvid Hreg Hw Hf.
-  subst vid. pose proof HI as [HD HB]. pose proof HB as (B1 & B2 & B3 & B4 & B5). rewrite Hov in B3, B4. rewrite Hbs in B1, B2, B3, B4.
+  intros s1 nb b rmax order odd fwd reg vid g dir s2 r HI Hbs Hb Hnb Hmk Hw Hf.
+  pose proof HI as [HD HB]. pose proof HB as (B1 & B2 & B3 & B4 & B5).
+  rewrite Hmk in B3, B4. rewrite Hbs in B1, B2, B3, B4.
   cbn beta iota in B1. destruct B1 as [B1a B1b].
   assert (Hsz : negb (r_rmax b =? rmax) = false) by (rewrite Hb; cbn; rewrite Nat.eqb_refl; reflexivity).
-  unfold finish_bs in Hf. rewrite ?Hsz in Hf. cbn [andb] in Hf. destruct fwd.
+  assert (Hord : r_order b = order /\ r_odd b = odd) by (rewrite Hb; split; reflexivity).
+  destruct Hord as [Ho Hd].
+  unfold finish_bs in Hf. rewrite ?Hsz in Hf. cbn [andb] in Hf. unfold expected_a. rewrite <- Hb. destruct fwd.
   - (* forward *)
     destruct (trf s1) as [a|] eqn:Ea.
-    + destruct (B3 a eq_refl) as (x & v & Hx & Ha & Hv). inversion Hx; subst x. inversion Hv; subst v.
+    + destruct (B3 a eq_refl) as (x & Hx & Ha). inversion Hx; subst x.
       inversion Hf; subst s2 r. split; [exact HI|]. rewrite Ha. repeat split; auto.
     + assert (Hnew : forall d', honest d' ->
-                Inv (upd s1 (bs_prm s1) (bs s1) (tri_full s1) (Some (AFwd b (norm_vid ov))) (tri_prm s1) (tri s1) g d')).
-      { intros d' Hd'. apply Inv_upd; auto. rewrite Hov, Hbs. repeat split; auto.
-        - intros a Ha. injection Ha as <-. exists b, ov. auto. }
+                Inv (upd s1 (bs_prm s1) (bs s1) (tri_full s1) (Some (AFwd b vid)) (tri_prm s1) (tri s1) g d')).
+      { intros d' Hd'. apply Inv_upd; auto. rewrite Hmk, Hbs. repeat split; auto.
+        intros a Ha. injection Ha as <-. exists b. auto. }
       destruct nb.
       * destruct (save_some dir rmax order odd b None (dk s1) Hw) as [d' Hs].
         pose proof (save_good _ _ _ _ _ _ _ _ B5 Hb (or_introl eq_refl) Hs) as Hd'.
         rewrite Hs in Hf. inversion Hf; subst s2 r. split; [apply Hnew; auto|]. repeat split; auto.
       * inversion Hf; subst s2 r. split; [apply Hnew; auto|]. repeat split; auto.
   - (* inverse *)
-    unfold stage2 in Hf. rewrite Hreg in Hf.
-    rewrite Hsz in Hf. cbn [andb] in Hf.
-    (* saving at the end *)
+    unfold stage2 in Hf. rewrite Hsz in Hf. cbn [andb] in Hf.
     assert (Hend : forall (s3 : st) (nb3 : bool) (a : acont) (ti : option acont),
               Inv s3 -> bs s3 = Some b -> (tri_full s3 = None \/ tri_full s3 = Some b) ->
               dst s3 = dst s1 -> prm s3 = prm s1 -> wobj s3 = wobj s1 -> ibs s3 = ibs s1 -> tri s3 = ti ->
@@ -301,29 +318,40 @@ Proof.
         apply Inv_upd; auto. eapply InvB_dk; eauto.
       - inversion He; subst s2 r. split; [exact HI3|]. repeat split; auto. }
     destruct (opt_eqb (tri_prm s1) (Some reg)) eqn:Eh.
-    + (* cached *)
-      apply opt_eqb_eq in Eh. destruct (B4 reg Eh) as (x & v & Hx & Ht & Hv).
-      inversion Hx; subst x. inversion Hv; subst v. rewrite Ht in Hf.
+    + (* cached: the recorded reg never raises *)
+      apply opt_eqb_eq in Eh. destruct (B4 reg Eh) as (x & Hx & Ht & Hnr).
+      inversion Hx; subst x. rewrite Ho, Hd in Hnr. rewrite Hnr. rewrite Ht in Hf.
       eapply Hend; [exact HI| | | | | | | |exact Hf]; auto.
       destruct (tri_full s1) as [t|] eqn:Et; auto. right. pose proof (B2 t eq_refl) as E. injection E as ->. reflexivity.
-    + destruct (reg =? 0) eqn:Er.
-      * apply Nat.eqb_eq in Er. subst reg.
-        cbn [tri_full upd] in Hf.
-        destruct (tri_full s1) as [t|] eqn:Et.
-        -- assert (Etb : t = b) by (pose proof (B2 t eq_refl) as E; injection E as ->; reflexivity). subst t.
-           cbn [tri upd] in Hf.
-           eapply Hend; [| | | | | | | |exact Hf]; cbn [bs tri_full dst prm wobj ibs tri upd]; auto.
-           apply Inv_upd; [exact HD|].
-           cbn [dst upd bs_prm bs tri_full trf tri_prm tri dk]. rewrite Hov, Hbs. repeat split; auto; try (intros ? Hq; injection Hq as <-); auto; try (exists b, ov; repeat split; auto).
+    + destruct (reg_raises reg order odd) eqn:Hreg.
+      * (* invalid reg: ValueError, _tri_prm = None *)
+        inversion Hf; subst s2 r. split; [|repeat split; auto].
+        apply Inv_upd; [exact HD|].
+        rewrite Hmk, Hbs. repeat split; auto; discriminate.
+      * destruct (reg =? 0) eqn:Er.
+        -- apply Nat.eqb_eq in Er. subst reg.
+           cbn [tri_full upd] in Hf.
+           destruct (tri_full s1) as [t|] eqn:Et.
+           ++ assert (Etb : t = b) by (pose proof (B2 t eq_refl) as E; injection E as ->; reflexivity). subst t.
+              cbn [tri upd] in Hf.
+              eapply Hend; [| | | | | | | |exact Hf]; cbn [bs tri_full dst prm wobj ibs tri upd]; auto.
+              apply Inv_upd; [exact HD|].
+              cbn [mkey upd bs_prm bs tri_full trf tri_prm tri dk]. rewrite Hmk, Hbs.
+              repeat split; auto; try (intros ? Hq; injection Hq as <-); auto;
+                try (exists b; rewrite Ho, Hd; repeat split; auto).
+           ++ cbn [tri upd] in Hf.
+              eapply (Hend _ true); [| | | | | | | |exact Hf]; cbn [bs tri_full dst prm wobj ibs tri upd]; auto.
+              apply Inv_upd; [exact HD|].
+              cbn [mkey upd bs_prm bs tri_full trf tri_prm tri dk]. rewrite Hmk, Hbs.
+              repeat split; auto; try (intros ? Hq; injection Hq as <-); auto;
+                try (exists b; rewrite Ho, Hd; repeat split; auto).
         -- cbn [tri upd] in Hf.
-           eapply (Hend _ true); [| | | | | | | |exact Hf]; cbn [bs tri_full dst prm wobj ibs tri upd]; auto.
-           apply Inv_upd; [exact HD|].
-           cbn [dst upd bs_prm bs tri_full trf tri_prm tri dk]. rewrite Hov, Hbs. repeat split; auto; try (intros ? Hq; injection Hq as <-); auto; try (exists b, ov; repeat split; auto).
-      * cbn [tri upd] in Hf.
-        eapply Hend; [| | | | | | | |exact Hf]; cbn [bs tri_full dst prm wobj ibs tri upd]; auto.
-        -- apply Inv_upd; [exact HD|].
-           cbn [dst upd bs_prm bs tri_full trf tri_prm tri dk]. rewrite Hov, Hbs. repeat split; auto; try (intros ? Hq; injection Hq as <-); auto; try (exists b, ov; repeat split; auto).
-        -- destruct (tri_full s1) as [t|] eqn:Et; auto. right. pose proof (B2 t eq_refl) as E. injection E as ->. reflexivity.
+           eapply Hend; [| | | | | | | |exact Hf]; cbn [bs tri_full dst prm wobj ibs tri upd]; auto.
+           ++ apply Inv_upd; [exact HD|].
+              cbn [mkey upd bs_prm bs tri_full trf tri_prm tri dk]. rewrite Hmk, Hbs.
+              repeat split; auto; try (intros ? Hq; injection Hq as <-); auto;
+                try (exists b; rewrite Ho, Hd; repeat split; auto).
+           ++ destruct (tri_full s1) as [t|] eqn:Et; auto. right. pose proof (B2 t eq_refl) as E. injection E as ->. reflexivity.
 Qed.
 
 Lemma bad_dir_writable : forall s bd g dir, uses_bad_dir s bd = false -> resolve (gdir s) bd = (g, dir) ->
@@ -333,23 +361,28 @@ Proof.
   destruct dir; auto. apply negb_false_iff in H. auto.
 Qed.
 
-Lemma get_bs_good : forall s rmax order odd fwd reg bd listing s2 r ov,
-  Inv s -> dst_vid (dst s) = Some ov -> uses_bad_dir s bd = false -> reg_raises reg order odd = false ->
-  get_bs s rmax order odd fwd reg ov bd listing = (s2, r) ->
+Lemma get_bs_good : forall s rmax order odd fwd reg vid bd listing s2 r,
+  Inv s -> uses_bad_dir s bd = false ->
+  get_bs s rmax order odd fwd reg vid bd listing = (s2, r) ->
   Inv s2 /\ dst s2 = dst s /\ prm s2 = prm s /\ wobj s2 = wobj s /\ ibs s2 = ibs s /\
-  r = Ret (if fwd then AFwd (ideal rmax order odd) (norm_vid ov)
-           else AInv reg (ideal rmax order odd) (norm_vid ov)).
+  (r = expected_a rmax order odd fwd reg (norm_vid vid) \/
+   (exists e, r = Raise e) /\ damaged (dk s)).
 Proof.
-  intros s rmax order odd fwd reg bd listing s2 r ov HI Hov Hbad Hreg Hg.
+  intros s rmax order odd fwd reg vid bd listing s2 r HI Hbad Hg.
   unfold get_bs in Hg. destruct (resolve (gdir s) bd) as [g dir] eqn:Er.
   pose proof (bad_dir_writable _ _ _ _ Hbad Er) as Hw.
   destruct (stage1 s rmax order odd fwd reg listing g dir) as [[s1 nb] oe] eqn:E1.
-  destruct (stage1_good _ _ _ _ _ _ _ _ _ _ _ _ HI Hw E1) as (Hoe & HI1 & Ed & Ep & Ew & Ei & Edk & Hbs & Hnb).
-  subst oe. rewrite Hbs in Hg.
-  assert (Hov1 : dst_vid (dst s1) = Some ov) by (rewrite Ed; exact Hov).
-  destruct (finish_good _ _ _ _ _ _ _ _ _ _ _ _ _ _ HI1 Hbs eq_refl Hnb Hov1 eq_refl Hreg Hw Hg)
-    as (HI2 & E2d & E2p & E2w & E2i & Hr).
-  split; [exact HI2|]. rewrite E2d, E2p, E2w, E2i, Ed, Ep, Ew, Ei. repeat split; auto.
+  destruct (stage1_good _ _ _ _ _ _ _ _ _ _ _ _ HI Hw E1) as (HI1 & Ed & Ep & Ew & Ei & Edk & Emk & Hraise & Hok).
+  destruct oe as [e|].
+  - inversion Hg; subst. split; auto. repeat split; auto. right. split; [eauto|]. eapply Hraise; eauto.
+  - destruct (Hok eq_refl) as [Hbs Hnb].
+    destruct (set_mask_good s1 (norm_vid vid) HI1) as (HIm & Mk & Md & Mp & Mw & Mi & Mdk & Mb & Mt & Mg).
+    rewrite Mb, Hbs in Hg.
+    assert (Hnb' : nb = true -> tri_full (set_mask s1 (norm_vid vid)) = None) by (intros H; rewrite Mt; auto).
+    assert (Hbs' : bs (set_mask s1 (norm_vid vid)) = Some (ideal rmax order odd)) by (rewrite Mb; auto).
+    destruct (finish_good _ _ _ _ _ _ _ _ _ _ _ _ _ HIm Hbs' eq_refl Hnb' Mk Hw Hg)
+      as (HI2 & E2d & E2p & E2w & E2i & Hr).
+    split; [exact HI2|]. rewrite E2d, E2p, E2w, E2i, Md, Mp, Mw, Mi, Ed, Ep, Ew, Ei. repeat split; auto.
 Qed.
 
 (* ---- the whole call ------------------------------------------------------------------ *)
@@ -358,6 +391,12 @@ Definition expected (c : call) : rres :=
      q_a := if c_fwd c then AFwd (ideal (c_rmax c) (c_order c) (c_odd c)) (norm_vid (c_vid c))
             else AInv (c_reg c) (ideal (c_rmax c) (c_order c) (c_odd c)) (norm_vid (c_vid c));
      q_img := c_geom c; q_want := c_geom c |}.
+
+(* what a call returns, in any reachable state and in a fresh process *)
+Definition expected_out (c : call) : res rres :=
+  if negb (c_fail c =? 0) then Raise EValue
+  else if negb (c_fwd c) && reg_raises (c_reg c) (c_order c) (c_odd c) then Raise EValue
+  else Ret (expected c).
 
 Lemma fit_ideal : forall r o d, fit (ideal r o d) o d = ideal r o d.
 Proof.
@@ -372,56 +411,95 @@ Proof. intros s i H. exact H. Qed.
 
 Lemma call_good : forall s c s' r,
   Inv s -> hazard s (Call c) = false -> step_call s c = (s', r) ->
-  Inv s' /\ r = Ret (expected c).
+  Inv s' /\ (r = expected_out c \/ (exists e, r = Raise e) /\ damaged (dk s)).
 Proof.
   intros s c s' r HI Hz Hs.
-  destruct (hazard_parts _ _ Hz) as (Hf & Hreg & Hbad & _).
+  destruct (hazard_parts _ _ Hz) as (Hbad & _).
   unfold step_call in Hs.
   destruct (profiles s c) as [s1 rp] eqn:Ep.
-  destruct (profiles_good _ _ _ _ HI Hz Ep) as (Hrp & HI1 & Hov & Eg & Edk).
+  destruct (profiles_good _ _ _ _ HI Hz Ep) as [(Hrp & HI1 & Eg & Edk & Hf0)|(Hrp & Hs1 & Hf)].
+  2:{ subst rp s1. inversion Hs; subst. split; auto. left. unfold expected_out.
+      replace (c_fail c =? 0) with false by (symmetry; apply Nat.eqb_neq; auto). reflexivity. }
   subst rp.
   assert (Hbad1 : uses_bad_dir s1 (c_bd c) = false) by (unfold uses_bad_dir in *; rewrite Eg; exact Hbad).
   destruct (get_bs s1 (c_rmax c) (c_order c) (c_odd c) (c_fwd c) (c_reg c) (c_vid c) (c_bd c) (c_listing c))
     as [s2 rg] eqn:Egb.
-  destruct (get_bs_good _ _ _ _ _ _ _ _ _ _ _ HI1 Hov Hbad1 Hreg Egb) as (HI2 & E2d & E2p & E2w & E2i & Hr).
-  subst rg.
-  set (a := if c_fwd c then AFwd (ideal (c_rmax c) (c_order c) (c_odd c)) (norm_vid (c_vid c))
-            else AInv (c_reg c) (ideal (c_rmax c) (c_order c) (c_odd c)) (norm_vid (c_vid c))) in *.
-  assert (Hac : a_rcont a = ideal (c_rmax c) (c_order c) (c_odd c)) by (unfold a; destruct (c_fwd c); reflexivity).
-  rewrite Hac in Hs. cbn [r_rmax ideal] in Hs. rewrite Nat.eqb_refl in Hs. cbn [negb] in Hs.
-  rewrite rcont_eqb_refl in Hs. cbn [negb] in Hs. rewrite andb_false_r in Hs.
-  assert (Hfit : fit_a a (c_order c) (c_odd c) = a).
-  { unfold a. destruct (c_fwd c); cbn [fit_a]; rewrite fit_ideal; reflexivity. }
-  rewrite Hfit in Hs.
-  destruct (c_geom c) as [gm|] eqn:Egm.
-  - inversion Hs; subst. split; [apply Inv_set_ibs; exact HI2|].
-    unfold expected. fold a. rewrite Egm. reflexivity.
-  - inversion Hs; subst. split; [exact HI2|]. unfold expected. fold a. rewrite Egm. reflexivity.
+  destruct (get_bs_good _ _ _ _ _ _ _ _ _ _ _ HI1 Hbad1 Egb) as (HI2 & E2d & E2p & E2w & E2i & Hr).
+  destruct Hr as [Hr|[[e He] Hdam]].
+  2:{ subst rg. inversion Hs; subst. split; auto. right. split; [eauto|]. rewrite <- Edk. exact Hdam. }
+  subst rg. unfold expected_a in Hs. unfold expected_out. rewrite Hf0. cbn [Nat.eqb negb].
+  destruct (c_fwd c) eqn:Efw; cbn [negb andb].
+  - (* forward *)
+    cbn [a_rcont r_rmax ideal a_reg] in Hs. rewrite Nat.eqb_refl in Hs. cbn [negb andb] in Hs.
+    cbn [fit_a] in Hs. rewrite fit_ideal in Hs.
+    destruct (c_geom c) as [gm|] eqn:Egm; inversion Hs; subst; (split; [try apply Inv_set_ibs; exact HI2|]);
+      left; unfold expected; rewrite Efw, Egm; reflexivity.
+  - destruct (reg_raises (c_reg c) (c_order c) (c_odd c)) eqn:Hreg.
+    + inversion Hs; subst. split; auto.
+    + cbn [a_rcont r_rmax ideal a_reg] in Hs. rewrite Nat.eqb_refl in Hs. cbn [negb] in Hs.
+      rewrite rcont_eqb_refl in Hs. cbn [negb] in Hs. rewrite andb_false_r in Hs.
+      cbn [fit_a] in Hs. rewrite fit_ideal in Hs.
+      destruct (c_geom c) as [gm|] eqn:Egm; inversion Hs; subst; (split; [try apply Inv_set_ibs; exact HI2|]);
+        left; unfold expected; rewrite Efw, Egm; reflexivity.
 Qed.
 
 (* a fresh process *)
-Lemma fresh_expected : forall s c, hazard s (Call c) = false -> fresh (Call c) = Ret (expected c).
+Lemma fresh_expected : forall s c, hazard s (Call c) = false -> fresh (Call c) = expected_out c.
 Proof.
-  intros s c Hz. destruct (hazard_parts _ _ Hz) as (Hf & Hreg & Hbad & _).
+  intros s c Hz. destruct (hazard_parts _ _ Hz) as (Hbad & _).
   unfold fresh.
   destruct (step_call init (fresh_call c)) as [s' r] eqn:Es. cbn [snd].
   assert (Hz0 : hazard init (Call (fresh_call c)) = false).
-  { cbn [hazard fresh_call c_fail c_reg c_order c_odd c_bd c_pid c_wid]. rewrite Hf, Hreg. cbn.
+  { cbn [hazard fresh_call c_bd c_pid c_wver]. cbn.
     unfold uses_bad_dir. cbn. destruct (c_bd c) as [| |d]; cbn; auto.
     destruct (dir_writable d) eqn:Ew; cbn; auto.
     unfold uses_bad_dir in Hbad. cbn in Hbad. rewrite Ew in Hbad. discriminate. }
-  destruct (call_good _ _ _ _ Inv_init Hz0 Es) as [_ ->]. reflexivity.
+  destruct (call_good _ _ _ _ Inv_init Hz0 Es) as [_ [->|[_ (di & k & pe & [])]]]. reflexivity.
 Qed.
 
-Lemma q_eqv_refl_expected : forall c, q_eqv (expected c) (expected c) = true.
+Lemma out_eqv_expected_refl : forall c, out_eqv (expected_out c) (expected_out c) = true.
 Proof.
-  intros c. unfold q_eqv, expected. cbn. rewrite !Nat.eqb_refl.
+  intros c. unfold expected_out.
+  destruct (negb (c_fail c =? 0)); [reflexivity|].
+  destruct (negb (c_fwd c) && reg_raises (c_reg c) (c_order c) (c_odd c)); [reflexivity|].
+  cbn [out_eqv]. unfold q_eqv, expected. cbn. rewrite !Nat.eqb_refl.
   assert (Ha : forall a : acont, r_junk (a_rcont a) = false -> a_eqv a a = true).
   { intros [x v|rg x v] Hj; cbn in *; unfold r_eqv; rewrite !Nat.eqb_refl, !eqb_reflx, Hj; reflexivity. }
   rewrite Ha by (destruct (c_fwd c); reflexivity).
   assert (Hg : forall g, geom_eqb g g = true).
   { intros [[[x y] z]|]; cbn; rewrite ?Nat.eqb_refl; reflexivity. }
   rewrite !Hg. reflexivity.
+Qed.
+
+Lemma a_eqv_refl : forall a : acont, r_junk (a_rcont a) = false -> a_eqv a a = true.
+Proof.
+  intros [x v|rg x v] Hj; cbn in *; unfold r_eqv; rewrite !Nat.eqb_refl, !eqb_reflx, Hj; reflexivity.
+Qed.
+
+(* the public accessor get_bs_cached called directly *)
+Lemma getbs_good : forall s rmax order odd fwd reg vid bd l s' r,
+  Inv s -> uses_bad_dir s bd = false ->
+  step s (GetBs rmax order odd fwd reg vid bd l) = (s', r) ->
+  Inv s' /\
+  (out_eqv r (fresh (GetBs rmax order odd fwd reg vid bd l)) = true \/
+   (exists e, r = Raise e) /\ damaged (dk s)).
+Proof.
+  intros s rmax order odd fwd reg vid bd l s' r HI Hbad Hs. cbn [step] in Hs.
+  destruct (get_bs s rmax order odd fwd reg vid bd l) as [s2 rg] eqn:Eg.
+  destruct (get_bs_good _ _ _ _ _ _ _ _ _ _ _ HI Hbad Eg) as (HI2 & _ & _ & _ & _ & Hr).
+  (* the fresh process *)
+  assert (Hfb : uses_bad_dir init (fresh_bd bd) = false).
+  { unfold uses_bad_dir. destruct bd as [| |d]; cbn; auto. destruct (dir_writable d) eqn:Ew; cbn; auto. }
+  cbn [fresh].
+  destruct (get_bs init rmax order odd fwd reg vid (fresh_bd bd) []) as [s0 r0] eqn:E0.
+  destruct (get_bs_good _ _ _ _ _ _ _ _ _ _ _ Inv_init Hfb E0) as (_ & _ & _ & _ & _ & [Hr0|[_ (di & k & pe & [])]]).
+  destruct Hr as [Hr|[[e He] Hdam]].
+  - subst rg r0. unfold expected_a in *. destruct fwd.
+    + inversion Hs; subst. split; auto. left. cbn [out_eqv]. unfold q_eqv. cbn [q_pid q_wver q_a q_img q_want geom_eqb Nat.eqb andb]. rewrite a_eqv_refl by reflexivity. reflexivity.
+    + destruct (reg_raises reg order odd).
+      * inversion Hs; subst. split; auto.
+      * inversion Hs; subst. split; auto. left. cbn [out_eqv]. unfold q_eqv. cbn [q_pid q_wver q_a q_img q_want geom_eqb Nat.eqb andb]. rewrite a_eqv_refl by reflexivity. reflexivity.
+  - subst rg. inversion Hs; subst. split; auto. right. split; eauto.
 Qed.
 
 (* ---- one step ------------------------------------------------------------------------------ *)
@@ -433,17 +511,18 @@ Proof.
 Qed.
 
 Lemma step_good : forall s o s' r,
-  Inv s -> hazard s o = false -> damage o = false -> step s o = (s', r) ->
-  Inv s' /\ (is_call o = true -> out_eqv r (fresh o) = true).
+  Inv s -> hazard s o = false -> step s o = (s', r) ->
+  Inv s' /\
+  (is_call o = true -> out_eqv r (fresh o) = true \/ (exists e, r = Raise e) /\ damaged (dk s)).
 Proof.
-  intros s o s' r HI Hz Hd Hs. pose proof HI as [HD HB].
+  intros s o s' r HI Hz Hs. pose proof HI as [HD HB].
   destruct o as [c|rmax order odd fwd reg vid bd l|sel|bd|bd|d k c|d k].
-  - cbn [step] in Hs. destruct (call_good _ _ _ _ HI Hz Hs) as [HI' ->]. split; auto.
-    intros _. rewrite (fresh_expected _ _ Hz). cbn [out_eqv]. apply q_eqv_refl_expected.
-  - discriminate.
+  - cbn [step] in Hs. destruct (call_good _ _ _ _ HI Hz Hs) as [HI' Hr]. split; auto.
+    intros _. rewrite (fresh_expected _ _ Hz). destruct Hr as [->|Hr]; [left; apply out_eqv_expected_refl|right; exact Hr].
+  - cbn [hazard] in Hz. destruct (getbs_good _ _ _ _ _ _ _ _ _ _ _ HI Hz Hs) as [HI' Hr]. split; auto.
   - inversion Hs; subst. split; [|discriminate].
     destruct HB as (B1 & B2 & B3 & B4 & B5).
-    destruct sel; split; unfold InvD, InvB in *; cbn [prm wobj dst ibs bs_prm bs tri_full trf tri_prm tri dk dst_vid]; auto.
+    destruct sel; split; unfold InvD, InvB in *; cbn [prm wobj dst ibs bs_prm bs tri_full trf tri_prm tri dk mkey]; auto.
     + repeat split; auto; discriminate.
     + repeat split; auto; try discriminate. destruct (bs s); auto. destruct B1 as (A & B & C). auto.
     + repeat split; auto; try discriminate. destruct (bs s); auto. destruct B1 as (A & B & C). auto.
@@ -453,26 +532,149 @@ Proof.
   - inversion Hs; subst. split; [|discriminate]. apply Inv_upd; auto.
   - inversion Hs; subst. split; [|discriminate]. apply Inv_upd; auto.
     destruct HB as (B1 & B2 & B3 & B4 & B5). repeat split; auto.
-    apply honest_put; auto. cbn [hazard damage] in *.
-    destruct c as [f|e|]; try discriminate. apply negb_false_iff in Hz. apply fcont_honest_ok; auto.
+    apply honest_put; auto. cbn [hazard] in *.
+    destruct c as [f|e|]; auto. apply negb_false_iff in Hz. apply fcont_honest_ok; auto.
   - inversion Hs; subst. split; [|discriminate]. apply Inv_upd; auto.
     destruct HB as (B1 & B2 & B3 & B4 & B5). repeat split; auto. apply honest_filter; auto.
 Qed.
 
-Lemma history_independent_from : forall ops s,
-  Inv s -> no_hazard s ops = true -> no_damage ops = true -> all_agree s ops = true.
+(* ---- no damaged file ---------------------------------------------------------------------- *)
+Lemma save_dk : forall dir rmax order odd b t d d' di k c,
+  save_bs dir rmax order odd b t d = Some d' -> In (di, k, c) d' ->
+  In (di, k, c) d \/ exists f, c = FGood f.
 Proof.
-  induction ops as [|o ops IH]; intros s HI Hz Hd; [reflexivity|].
+  intros dir rmax order odd b t d d' di k c Hs Hin. unfold save_bs in Hs.
+  destruct dir as [d0|]; [|inversion Hs; subst; auto].
+  destruct (dir_writable d0); [|discriminate]. inversion Hs; subst.
+  destruct Hin as [Hi|Hi]; [inversion Hi; subst; right; eauto|apply filter_In in Hi; destruct Hi; auto].
+Qed.
+
+Lemma stage2_dk : forall s1 nb b rmax reg order odd vid g s3 nb3 oe,
+  stage2 s1 nb b rmax reg order odd vid g = (s3, nb3, oe) -> dk s3 = dk s1.
+Proof.
+  intros s1 nb b rmax reg order odd vid g s3 nb3 oe H. unfold stage2 in H. revert H.
+  repeat match goal with
+         | |- context [if ?c then _ else _] => destruct c
+         | |- context [match ?x with _ => _ end] => destruct x
+         end; intros E; inversion E; subst; reflexivity.
+Qed.
+
+Lemma finish_dk : forall s1 nb b rmax order odd fwd reg vid g dir s2 r di k c,
+  finish_bs s1 nb b rmax order odd fwd reg vid g dir = (s2, r) -> In (di, k, c) (dk s2) ->
+  In (di, k, c) (dk s1) \/ exists f, c = FGood f.
+Proof.
+  intros s1 nb b rmax order odd fwd reg vid g dir s2 r di k c Hf Hin. unfold finish_bs in Hf.
+  destruct fwd.
+  - destruct (trf s1); [inversion Hf; subst; auto|].
+    destruct (negb (r_rmax b =? rmax) && negb (vid =? 0)); [inversion Hf; subst; auto|].
+    destruct nb; [|inversion Hf; subst; auto].
+    destruct (save_bs dir rmax order odd b None (dk s1)) as [d'|] eqn:Es; inversion Hf; subst; auto.
+    cbn [dk upd] in Hin. exact (save_dk _ _ _ _ _ _ _ _ _ _ _ Es Hin).
+  - destruct (stage2 s1 nb b rmax reg order odd vid g) as [[s3 nb3] oe] eqn:E2.
+    pose proof (stage2_dk _ _ _ _ _ _ _ _ _ _ _ _ E2) as Hd.
+    destruct oe; [inversion Hf; subst; rewrite <- Hd; auto|].
+    destruct (tri s3); [|inversion Hf; subst; rewrite <- Hd; auto].
+    destruct nb3; [|inversion Hf; subst; rewrite <- Hd; auto].
+    destruct (save_bs dir rmax order odd b (tri_full s3) (dk s3)) as [d'|] eqn:Es;
+      inversion Hf; subst; rewrite <- Hd; auto.
+    cbn [dk upd] in Hin. exact (save_dk _ _ _ _ _ _ _ _ _ _ _ Es Hin).
+Qed.
+
+Lemma get_bs_dk : forall s rmax order odd fwd reg vid bd l s2 r di k c,
+  get_bs s rmax order odd fwd reg vid bd l = (s2, r) -> In (di, k, c) (dk s2) ->
+  In (di, k, c) (dk s) \/ exists f, c = FGood f.
+Proof.
+  intros s rmax order odd fwd reg vid bd l s2 r di k c Hg Hin. unfold get_bs in Hg.
+  destruct (resolve (gdir s) bd) as [g dir].
+  destruct (stage1 s rmax order odd fwd reg l g dir) as [[s1 nb] oe] eqn:E1.
+  assert (H1 : dk s1 = dk s).
+  { unfold stage1 in E1.
+    destruct (match bs s with None => true | Some _ => negb (prm_eqb (bs_prm s) rmax order odd) end);
+      [destruct (load_bs dir rmax order odd (negb fwd && (reg =? 0)) l (dk s))|]; inversion E1; subst; reflexivity. }
+  destruct oe; [inversion Hg; subst; left; rewrite <- H1; exact Hin|].
+  set (sm := set_mask s1 (norm_vid vid)) in *.
+  assert (Hm : dk sm = dk s1) by (unfold sm, set_mask; destruct (mkey s1 =? norm_vid vid); reflexivity).
+  destruct (bs sm) as [b|]; [|inversion Hg; subst; left; rewrite <- H1, <- Hm; exact Hin].
+  rewrite <- H1, <- Hm. eapply finish_dk; eauto.
+Qed.
+
+Lemma step_clean : forall s o s' r, clean s -> damage o = false -> step s o = (s', r) -> clean s'.
+Proof.
+  intros s o s' r Hc Hd Hs di k c Hin pe.
+  destruct o as [cl|rmax order odd fwd reg vid bd l|sel|bd|bd|d k0 c0|d k0].
+  - cbn [step] in Hs. unfold step_call in Hs.
+    destruct (profiles s cl) as [s1 rp] eqn:Ep.
+    assert (H1 : dk s1 = dk s).
+    { unfold profiles in Ep. revert Ep.
+      repeat match goal with
+             | |- context [if ?c then _ else _] => destruct c
+             | |- context [match ?x with _ => _ end] => destruct x
+             end; intros E; inversion E; subst; reflexivity. }
+    destruct rp as [[[[a1 a2] a3] a4]|e]; [|inversion Hs; subst; rewrite H1 in Hin; eapply Hc; eauto].
+    destruct (get_bs s1 a3 (c_order cl) (c_odd cl) (c_fwd cl) (c_reg cl) a4 (c_bd cl) (c_listing cl)) as [s2 rg] eqn:Eg.
+    assert (H2 : In (di, k, c) (dk s2) -> In (di, k, c) (dk s) \/ exists f, c = FGood f).
+    { intros Hi. rewrite <- H1. eapply get_bs_dk; eauto. }
+    assert (H3 : In (di, k, c) (dk s2)).
+    { revert Hs.
+      repeat match goal with
+             | |- context [if ?c then _ else _] => destruct c
+             | |- context [match ?x with _ => _ end] => destruct x
+             end; intros E; inversion E; subst; exact Hin. }
+    destruct (H2 H3) as [Hi|[f ->]]; [eapply Hc; eauto|discriminate].
+  - cbn [step] in Hs.
+    destruct (get_bs s rmax order odd fwd reg vid bd l) as [s2 rg] eqn:Eg.
+    assert (H3 : In (di, k, c) (dk s2)) by (destruct rg; inversion Hs; subst; exact Hin).
+    destruct (get_bs_dk _ _ _ _ _ _ _ _ _ _ _ _ _ _ Eg H3) as [Hi|[f ->]]; [eapply Hc; eauto|discriminate].
+  - inversion Hs; subst. eapply Hc; eauto.
+  - cbn [step] in Hs. destruct (resolve (gdir s) bd) as [g dir]. inversion Hs; subst. cbn [dk upd] in Hin.
+    destruct dir; [apply filter_In in Hin; destruct Hin|]; eapply Hc; eauto.
+  - inversion Hs; subst. eapply Hc; eauto.
+  - inversion Hs; subst. cbn [dk upd] in Hin. destruct Hin as [Hi|Hi].
+    + inversion Hi; subst. cbn [damage] in Hd. destruct c; discriminate.
+    + apply filter_In in Hi. destruct Hi. eapply Hc; eauto.
+  - inversion Hs; subst. cbn [dk upd] in Hin. apply filter_In in Hin. destruct Hin. eapply Hc; eauto.
+Qed.
+
+(* ---- theorems ---------------------------------------------------------------------------------- *)
+Lemma history_independent_from : forall ops s,
+  Inv s -> clean s -> no_hazard s ops = true -> no_damage ops = true -> all_agree s ops = true.
+Proof.
+  induction ops as [|o ops IH]; intros s HI Hc Hz Hd; [reflexivity|].
   cbn [no_hazard no_damage all_agree] in *.
   apply andb_true_iff in Hz. destruct Hz as [Hz1 Hz2]. apply negb_true_iff in Hz1.
   apply andb_true_iff in Hd. destruct Hd as [Hd1 Hd2]. apply negb_true_iff in Hd1.
   destruct (step s o) as [s' r] eqn:Es. cbn [fst] in Hz2.
-  destruct (step_good _ _ _ _ HI Hz1 Hd1 Es) as [HI' Hr].
+  destruct (step_good _ _ _ _ HI Hz1 Es) as [HI' Hr].
+  pose proof (step_clean _ _ _ _ Hc Hd1 Es) as Hc'.
   apply andb_true_iff. split; [|apply IH; auto].
   destruct (is_call o) eqn:Eo; auto.
+  destruct (Hr eq_refl) as [Hok|[_ (di & k & pe & Hin)]]; [exact Hok|].
+  exfalso. exact (Hc _ _ _ Hin pe eq_refl).
 Qed.
 
-(* C07 for rbasex, with the recorded defective paths excluded *)
-Theorem history_independent_partial : forall ops,
+(* C07 for rbasex: every call of every history (transforms with any parameters,
+   valid or not, direct accessor calls, clean-ups, appearing files) returns what
+   a fresh process returns *)
+Theorem history_independent : forall ops,
   no_hazard init ops = true -> no_damage ops = true -> all_agree init ops = true.
-Proof. intros. apply history_independent_from; auto. apply Inv_init. Qed.
+Proof. intros. apply history_independent_from; auto; [apply Inv_init|intros di k c []]. Qed.
+
+Lemma fault_safe_from : forall ops s,
+  Inv s -> no_hazard s ops = true -> all_safe s ops = true.
+Proof.
+  induction ops as [|o ops IH]; intros s HI Hz; [reflexivity|].
+  cbn [no_hazard all_safe] in *.
+  apply andb_true_iff in Hz. destruct Hz as [Hz1 Hz2]. apply negb_true_iff in Hz1.
+  destruct (step s o) as [s' r] eqn:Es. cbn [fst] in Hz2.
+  destruct (step_good _ _ _ _ HI Hz1 Es) as [HI' Hr].
+  apply andb_true_iff. split; [|apply IH; auto].
+  destruct (is_call o) eqn:Eo; [|reflexivity].
+  destruct (Hr eq_refl) as [Hok|[[e ->] _]].
+  - rewrite Hok. reflexivity.
+  - apply orb_true_iff. right. destruct e; reflexivity.
+Qed.
+
+(* C08 for rbasex: with damaged / wrong-shape files anywhere, every call returns
+   the fresh result or raises — also after a raising call *)
+Theorem fault_safe : forall ops, no_hazard init ops = true -> all_safe init ops = true.
+Proof. intros. apply fault_safe_from; auto. apply Inv_init. Qed.
